@@ -420,9 +420,9 @@ func deflateBomb(n int) []byte {
 		}
 		return x
 	}
-	put(0, 1)                 // BFINAL=0
-	put(1, 2)                 // fixed Huffman
-	put(rev(0x30, 8), 8)      // literal 0
+	put(0, 1)                // BFINAL=0
+	put(1, 2)                // fixed Huffman
+	put(rev(0x30, 8), 8)     // literal 0
 	for i := 0; i < n; i++ { // length 258 = symbol 285 (8-bit code 0xc5), distance 1 = code 0 (5 bits)
 		put(rev(0xc5, 8), 8)
 		put(0, 5)
